@@ -539,12 +539,12 @@ def witness_search(check, pool, Task, kinds):
         for ps in ([2], [3], [2, 2]):
             for s in range(2):
                 tasks.append(Task(f'search:line parts={ps}#{s}', q_line, (ps, set()), {'mode': 'exact', 'timeout': 150, 'seed': s},
-                                  timeout=200, group=f'search:line parts={ps}', meta={'kind': 'line', 'parts': ps}))
+                                  timeout=200, group=f'search:line parts={ps}', meta={'kind': 'line', 'parts': ps, 'noretry': True}))
     if 'polygon' in kinds:
         for sh in ([[3]], [[4]], [[3, 3]], [[3], [3]]):
             for s in range(2):
                 tasks.append(Task(f'search:polygon rings={sh}#{s}', q_polygon, (sh, set()), {'mode': 'exact', 'timeout': 150, 'seed': s},
-                                  timeout=200, group=f'search:polygon rings={sh}', meta={'kind': 'polygon', 'shape': sh}))
+                                  timeout=200, group=f'search:polygon rings={sh}', meta={'kind': 'polygon', 'shape': sh, 'noretry': True}))
     if 'multipoint' in kinds:
         tasks.append(Task('search:multipoint k=2', q_multipoint, (2,), {'timeout': 100}, timeout=150, meta={'kind': 'multipoint', 'k': 2}))
     res = pool(tasks)
